@@ -112,7 +112,7 @@ var specs = map[string]*Spec{
 		Quick:    TierParams{Runs: 40000, RaceRuns: 3000, Budget: 6 * time.Minute},
 		Thorough: TierParams{Budget: 24 * time.Minute, Rounds: 6},
 		Level:    "exploration",
-		Rule: "per round a seeded batch of 200 closed, data-race-free-by-construction Go functions (go statements incl. nested and loop spawns, sync.Mutex, sync.Cond, sync.WaitGroup, machine.Sleep, machine.WaitTimeout polling loops; shared state in heap cells, captured vars, struct fields behind pointers with methods; classes: deterministic-by-construction and schedule-dependent) is generated, translated by the goose built from the working tree, and compiled (sync->simsync, go->simrt.Go, yield before every statement) into the driver. " +
+		Rule: "per round a seeded batch of 200 closed, data-race-free-by-construction Go functions (go statements incl. nested and loop spawns, sync.Mutex, sync.Cond, sync.WaitGroup, machine.Sleep, machine.WaitTimeout polling loops; shared state in heap cells, captured vars, struct fields behind pointers with methods; classes: deterministic-by-construction and schedule-dependent) and a second package of 50 probe programs in ten shapes the shipped goose rejects or should reject (go f(args), RWMutex, return in a nested loop, assignment to a := local after capture, defer in a branch, go func literal with parameters, shared slice and map, break inside a switch clause, range over an integer, the address of a := local taken in several goroutines; translated with -ignore-errors and held to reject-or-faithful) is generated, translated by the goose built from the working tree, and compiled (sync->simsync, go->simrt.Go, yield before every statement) into the driver. " +
 			"Each run: one program under one seeded Go schedule (uniform / sticky / PCT) gives Go's result and its order of synchronisation events; the GooseLang text of the same program is executed on the glang interpreter along that order (schedule transfer) and must give Go's result, otherwise 300 random interleavings are searched for it; deterministic-class programs are additionally run on 3 random complete interleavings each of which must return the same value without cell race, stuck thread, deadlock or divergence. An auxiliary non-simulation assertion (aux.api-correspondence) counts sync/machine calls in the Go source against the primitives in the emitted definition, because Signal and Broadcast are both no-ops in GooseLang and a swap is invisible to execution. The -race build re-runs the Go side only (validates that the generator's programs are race-free; a Go race is INFRA, not a violation). " +
 			"Non-trivial: the Go run had more than two context switches; distinct = distinct fingerprints of (Go event log, GooseLang interleavings).",
 		Components: map[string]string{"goose translator (cmd/goose, goose.go, types.go, internal/coq)": "real: built from /repo's working tree and run on the generated package",
@@ -130,8 +130,8 @@ var specs = map[string]*Spec{
 		Quick:      TierParams{Runs: 1600, RaceRuns: 160, Budget: 6 * time.Minute},
 		Thorough:   TierParams{Budget: 20 * time.Minute},
 		Level:      "exploration",
-		Rule: "each plan is one TranslatePackages invocation: 1-9 package patterns (subset, order and repetition drawn from the seed) out of /repo's 13 example packages or out of a scratch module holding every file of testdata/negative-tests as its own (failing) package plus copies of three example packages, a flag combination (TypeCheck, AddSourceFileComments, SkipInterfaces), a scheduling strategy for the per-package worker goroutines (uniform / sticky / PCT, yield at every function entry of the translator and printer) and a permutation for every map range. " +
-			"Oracle: for every package byte-identical file text and identical error string compared with a golden translation of that package alone, produced by a FRESH PROCESS (the instrumented cmd/goose on the sequential schedule), in the slot of that package; no panic, no deadlock; in the -race build no race report. All patterns of a module come from one real multi-pattern load (shared import graph); 1/12 of the scratch plans reload afresh with each package's files handed to the parser in a permuted order; 1/16 of the plans run the instrumented cmd/goose binary itself under the simulated scheduler (exit status, stderr, written files; the output directory may already hold an earlier, longer output). " +
+		Rule: "each plan is one TranslatePackages invocation: 1-9 package patterns (subset, order and repetition drawn from the seed) out of /repo's 13 example packages or out of a scratch module holding every file of testdata/negative-tests as its own (failing) package plus copies of three example packages and hand-written synthetic packages (forward references across files, errors in several files, a struct shared by a defining and an importing package, FFI reached through a third package, two packages with seven conversion errors each), a flag combination (TypeCheck, AddSourceFileComments, SkipInterfaces), a scheduling strategy for the per-package worker goroutines (uniform / sticky / PCT, yield at every function entry of the translator and printer) and a permutation for every map range. " +
+			"Oracle: for every package byte-identical file text and identical error string compared with a golden translation of that package alone, produced by a FRESH PROCESS (the instrumented cmd/goose on the sequential schedule), in the slot of that package; no panic, no deadlock; in the -race build no race report. All patterns of a module come from one real multi-pattern load (shared import graph); 1/12 of the scratch plans reload afresh with each package's files handed to the parser in a permuted order; 1/16 of the plans run the instrumented cmd/goose binary itself under the simulated scheduler (exit status, stderr, written files; the output directory may already hold an earlier, longer output); boolean flags that the built command lists in its usage text and the shipped command does not have are passed at random in those plans (then one plan in four is a binary plan, and stderr is not compared because what such a flag prints is not constrained); in the race flavour the simulated command is a -race build and a report with a frame under the tree that does not involve the scheduler goroutine is a violation. " +
 			"Non-trivial: at least two packages were co-translated and their workers were actually interleaved (more context switches than workers); distinct = distinct event-log fingerprints among those.",
 		Components: map[string]string{"goose.go types.go idents.go errors.go interface.go internal/coq/coq.go": "real (compiled from /repo's working tree, yields at function entries, go statement and map ranges routed through the simulator)",
 			"go/packages loader (go list, parser, type checker)": "real, memoised per (module, pattern): runs before the workers start and is not part of the concurrency", "sync.WaitGroup, goroutine scheduling, map iteration order, time, math/rand": "stub: verif/simsync, simrt, simtime, simrand"},
@@ -145,7 +145,7 @@ var specs = map[string]*Spec{
 		Quick:    TierParams{Runs: 16000, Budget: 5 * time.Minute},
 		Thorough: TierParams{Budget: 10 * time.Minute},
 		Level:    "exploration",
-		Rule: "fault-free configuration of the disk simulator: one client, a plan of 1-40 Read/ReadTo/Write/Size/Barrier calls on a disk of 0,1,2,3,8 or 100 blocks with boundary addresses (size-1,size,size+1,2^32,2^52,2^64-1), wrong-sized write buffers and aliasing probes (scribble on the buffer after Write and on the slice returned by Read, one reusable buffer, dirty ReadTo buffers, a slice returned by Read held across later operations); an API call that never returns is a violation; " +
+		Rule: "fault-free configuration of the disk simulator: one client, a plan of 1-40 Read/ReadTo/Write/Size/Barrier calls on a disk of 0,1,2,3,8 or 100 blocks (one plan in sixteen: 64,128,1024,4096,4097 or 8192 blocks, where chunked storage has an empty or exactly full last chunk) with boundary addresses (size-1,size,size+1,2^32,2^52,2^64-1), wrong-sized write buffers and aliasing probes (scribble on the buffer after Write and on the slice returned by Read, one reusable buffer, dirty ReadTo buffers, a slice returned by Read held across later operations); block contents are the write's id laid out uniformly, as the zero block, as a repeat of earlier content, or with structure (only the last word, only the first word, one half set); a quarter of the plans close the disk and make another one or two (in memory: a new disk that must read zero; on a file: the same image, sometimes with another size); an API call that never returns is a violation; " +
 			"the same plan is executed on 8 systems (disk/async_disk x Mem/File-on-simulated-kernel x direct/global wrappers) and every tenth plan also on the real Linux kernel, each compared operation by operation with the register-array model and a neighbour scan after every write. " +
 			"Non-trivial: some read returned a block produced by an earlier write of the plan; distinct = distinct plans (hash of the plan).",
 		Components:   machComponents,
@@ -159,9 +159,9 @@ var specs = map[string]*Spec{
 		Quick:    TierParams{Runs: 1500, Budget: 5 * time.Minute},
 		Thorough: TierParams{Budget: 15 * time.Minute},
 		Level:    "fault_enumeration",
-		Rule: "plan index mod 4 == 3 is batch (d), the others go by plan index mod 3. (a) reopen: prior image absent or of length 0,1,n,n*4096-1,4095,4096,4097,n*4096,n*4096+1,(n+3)*4096,random bytes (n = requested blocks), then 1-4 rounds of NewFileDisk(n_i)/operations/Close with n_i varying; after every open Size, every retained whole block and every new block (must be zero, read with Read and with ReadTo into a dirty buffer) are checked; every 15th plan on the real kernel. " +
+		Rule: "plan index mod 8 == 7 is batch (e), mod 4 == 3 batch (d), the others go by plan index mod 3. (a) reopen: prior image absent or of length 0,1,n,n*4096-1,4095,4096,4097,n*4096,n*4096+1,(n+3)*4096,random bytes (n = requested blocks), then 1-4 rounds of NewFileDisk(n_i)/operations/Close with n_i varying; after every open Size, every retained whole block and every new block (must be zero, read with Read and with ReadTo into a dirty buffer) are checked; every 15th plan on the real kernel. " +
 			"(b) power crash: for a seeded plan with Barriers on an existing image, EVERY crash point (before each system call of the round) is executed, survivors chosen per the durability model, then reopen and compare every block not written since the last completed Barrier. " +
-			"(c) single-fault enumeration: for a seeded plan EVERY system call x EVERY applicable fault (errno on openat/fstat/ftruncate/pread/pwrite/fsync/close; short pread 0/512; short pwrite 0/512; ENOSPC) is executed; the operation must panic/return an error or all later data must be exact; prior images of every length class, with a length/contents scan when a fault fired inside NewFileDisk that reported success; plus 6 sampled double faults per plan and, for the crash batch, every fsync failing (EIO) combined with crash points after it. (d) concurrent flush failure: 3-5 client tasks write their own block and call Barrier under seeded schedules while one fsync, or every fsync from some point on, fails (flushes take 1 ms of simulated time in 2/3 of the plans); then a power failure loses every unsynced write; a client whose Barrier returned normally must find its value after reopening. " +
+			"(c) single-fault enumeration: for a seeded plan EVERY system call x EVERY applicable fault (errno on openat/fstat/ftruncate/pread/pwrite/fsync/close; short pread 0/512; short pwrite 0/512; ENOSPC) is executed; the operation must panic/return an error or all later data must be exact; prior images of every length class, with a length/contents scan when a fault fired inside NewFileDisk that reported success; plus 6 sampled double faults per plan and, for the crash batch, every fsync failing (EIO) combined with crash points after it. (d) concurrent flush failure: 3-5 client tasks write their own block and call Barrier under seeded schedules while one fsync, or every fsync from some point on, fails (flushes take 1 ms of simulated time in 2/3 of the plans); then a power failure loses every unsynced write; a client whose Barrier returned normally must find its value after reopening. (e) concurrent readers under a failing read: 2-4 reader tasks Read/ReadTo blocks of a prior image under seeded schedules while one pread, or every pread from some point on, fails with EIO or comes back short (0, 512, 4095 bytes): a call that returns normally must have produced the block. In (c) a system call the shipped code never makes (fallocate, fdatasync, read, write, lseek, ...) gets a default menu, so a tree that starts using it has its failures injected as well. " +
 			"Non-trivial: (a) a reopen or prior image was involved, (b,c) the crash/fault fired inside an operation; distinct = distinct concrete plans (plan + fault position/kind).",
 		Components:   machComponents,
 		Assumptions:  []string{"crash model: durable = fsynced data + journal prefix; unsynced writes persist in any subset, the last possibly torn at 512 bytes; real ext4 behaviour cannot be observed in this VM", "the image file's directory entry is durable before the crash batch starts (fsync of the parent directory is outside C11)"},
@@ -174,7 +174,7 @@ var specs = map[string]*Spec{
 		Quick:    TierParams{Runs: 6000, Budget: 5 * time.Minute},
 		Thorough: TierParams{Budget: 12 * time.Minute},
 		Level:    "exploration",
-		Rule: "fault-free configuration of the filesystem simulator: one client, 1-3 directories, a plan of 1-40 calls (Create/Append/Close/Open/ReadAt/Delete/Link/AtomicCreate/List, plus one bulk creation of 110-190 names for List's refill loop) generated against the reference model so that every call respects the documented preconditions; names from {a,b,a.tmp,c}, data sizes 0..70000, offsets/lengths around the file size, aliasing probes (scribble on data after Append/AtomicCreate and on the slice returned by ReadAt). " +
+		Rule: "fault-free configuration of the filesystem simulator: one client, 1-3 directories (named d0,d1,d2, or so that one name is a prefix of another: d,d1,d12 / db,db.old,db2), a plan of 1-40 calls (Create/Append/Close/Open/ReadAt/Delete/Link/AtomicCreate/List, plus one bulk creation of 110-190 names for List's refill loop) generated against the reference model so that every call respects the documented preconditions; names from {a,b,a.tmp,c}, data sizes 0..70000, offsets/lengths around the file size, aliasing probes (scribble on data after Append/AtomicCreate and on the slice returned by ReadAt). " +
 			"The same plan runs on MemFs and on DirFs over the simulated kernel (ReadDirent limited to 1-3 entries per call in half of the runs, high descriptor numbers in a quarter), each directly and through the package-level wrappers, and every tenth plan on DirFs over the real Linux kernel; every result is compared with the model (descriptors up to renaming and required to be fresh, List as a set) and all files are re-read at the end. " +
 			"Non-trivial: some ReadAt returned data; distinct = distinct plans.",
 		Components:   machComponents,
@@ -243,7 +243,7 @@ var specs = map[string]*Spec{
 		Quick:    TierParams{Runs: 24000, RaceRuns: 3000, Budget: 5 * time.Minute},
 		Thorough: TierParams{Budget: 15 * time.Minute},
 		Level:    "exploration",
-		Rule: "plans: 2-4 client tasks x 1-5 ops (Read/ReadTo/Write(unique id)/Size) over 1-3 addresses of a 1-3 block MemDisk (2/3 of plans) or FileDisk on the simulated kernel (1/3), " +
+		Rule: "plans: 2-4 client tasks x 1-5 ops (Read/ReadTo/Write/Size; written contents are unique ids, in a third of the plans a two-value alphabet plus zero, in a quarter unique ids laid out with zero stretches so that contents agree on a prefix or suffix) over 1-3 addresses of a 1-3 block MemDisk (2/3 of plans) or FileDisk on the simulated kernel (1/3), " +
 			"each executed under one seeded schedule (uniform / sticky 1/2,1/8,1/32 / PCT d=1..3) with yields before every statement, at every lock operation, system call and in the middle of every block copy. " +
 			"A run is non-trivial when at least two operations of different clients overlapped in time on one address and one of them was a write; distinct = distinct event-log fingerprints (FNV-64 over every scheduler event) among those.",
 		Components:   machComponents,
